@@ -92,7 +92,11 @@ func hostileBytes(r *rand.Rand, kind string, rc *hz.RConn, ras uint32) []byte {
 		default:
 			a = wire.Keepalive()
 		}
-		switch r.IntN(4) {
+		switch r.IntN(6) {
+		case 4: // a header with a length field out of range
+			b = append(wire.RawHeader(nil, []uint16{18, 0, 4097, 65535}[r.IntN(4)], uint8(1+r.IntN(4))), rb(r.IntN(8))...)
+		case 5: // a header with a broken marker
+			b = wire.RawHeader(rb(16), 19, 4)
 		case 0:
 			b = wire.Msg(5, rb(4))
 		case 1:
